@@ -1140,9 +1140,12 @@ def spy_instantiate(classes, log):
 
         def make(orig):
             def wrapped(self, circuit, target, x0):
+                before = np.array(circuit.params, dtype=np.float64)
                 res = orig(self, circuit, target, x0)
+                after = np.array(circuit.params, dtype=np.float64)
                 log.append((np.array(x0, dtype=np.float64).copy(),
-                            np.array(res, dtype=np.float64).copy()))
+                            np.array(res, dtype=np.float64).copy(),
+                            bool(np.array_equal(before, after))))
                 return res
             return wrapped
         cls.instantiate = make(orig)
@@ -1362,7 +1365,12 @@ def section_instantiate(R: Run, nruns: int):
                   f'{len(log)} per-start instantiations were run for '
                   f'multistarts={starts}', replay)
             continue
-        cands = [res for _, res in log]
+        cands = [e[1] for e in log]
+        if not all(e[2] for e in log):
+            R.bad('instantiater-instantiate-side-effect',
+                  'Instantiater.instantiate (documented side-effect free) '
+                  'changed the parameters of the circuit it was given',
+                  replay)
         for i in passthrough:
             if not np.array_equal(log[i][0], log[i][1]):
                 raise RuntimeError('mixed instantiater bookkeeping')
@@ -1388,8 +1396,8 @@ def section_instantiate(R: Run, nruns: int):
                   'the final parameters are none of the per-start results',
                   dict(replay, final=_dump(fin)))
         # descent statistics (not a property clause)
-        desc = sum(1 for (x0, res), cc in zip(log, cand_costs)
-                   if cc <= ref_cost(result, tg, x0) + 1e-9)
+        desc = sum(1 for e, cc in zip(log, cand_costs)
+                   if cc <= ref_cost(result, tg, e[0]) + 1e-9)
         ck.bump('optimiser_descended_starts', n=desc)
         ck.bump('optimiser_total_starts', n=len(log))
         # the model's selection for the engine's own key values
@@ -1417,6 +1425,81 @@ def section_instantiate(R: Run, nruns: int):
                       'multiStart <-> multi_start_instantiate_inplace no '
                       'longer checks)', dict(replay, keys=keys_),
                       found=False)
+
+
+def section_minimize(R: Run, nruns: int):
+    """Circuit.minimize(cost, minimizer=...): sets the parameters to what the
+    minimizer returns for (cost, circuit.params); nothing else changes."""
+    from bqskit.ir.opt.cost.functions import (
+        HilbertSchmidtCostGenerator, HilbertSchmidtResidualsGenerator)
+    from bqskit.ir.opt.minimizers import (CeresMinimizer, LBFGSMinimizer,
+                                          ScipyMinimizer)
+    from harness.circ_sim import Alphabet, Sim
+    ck, rng = R.ck, R.rng
+    P = pool()
+    sim = Sim(Alphabet(), rng)
+    keys = [k for k in P if 'vu' not in P[k][1] and k not in
+            ('U8', 'PAULI1', 'PAULIZ2', 'DIAG2', 'CCP')]
+    for run in range(nruns):
+        radixes = rng.choice([[2], [3], [2, 2], [2, 3], [2, 2, 2]])
+        ops = gen_spec(rng, radixes, rng.randint(1, 4), keys)
+        nparams = sum(P[k][0].num_params for k, _ in ops)
+        which = ['ceres', 'lbfgs', 'scipy', 'default'][run % 4]
+        if not ops or nparams == 0 or nparams > (5 if which == 'scipy'
+                                                   else 12):
+            continue
+        circuit = build_circuit(radixes, ops)
+        x0 = gen_params(rng, nparams, 'rand')
+        circuit.set_params(x0)
+        kind = rng.choice(['U', 'S', 'Y'])
+        tg = gen_target(rng, R.nrng, kind, rng.choice(['rand', 'pert']),
+                        radixes, np.array(circuit.get_unitary(
+                            gen_params(rng, nparams, 'rand'))))
+        resid = which in ('ceres', 'default')
+        gen = (HilbertSchmidtResidualsGenerator() if resid
+               else HilbertSchmidtCostGenerator())
+        cost = gen.gen_cost(circuit, tg.obj)
+        kwargs = {}
+        if which != 'default':
+            kwargs['minimizer'] = {'ceres': CeresMinimizer, 'lbfgs':
+                                   LBFGSMinimizer, 'scipy': ScipyMinimizer
+                                   }[which]()
+        mini = kwargs.get('minimizer') or CeresMinimizer()
+        replay = {'section': 'minimize', 'radixes': list(radixes),
+                  'ops': [[k, list(l)] for k, l in ops], 'x0': x0.tolist(),
+                  'minimizer': which, 'target_kind': kind,
+                  'target': _target_dump(tg)}
+        before = sim.circ_text(circuit, zero_params=True)
+        c0 = ref_cost(circuit, tg, x0)
+        try:
+            with quiet_stderr():
+                want = np.array(mini.minimize(cost, x0), dtype=np.float64)
+                ret = circuit.minimize(cost, **kwargs)
+        except BaseException as e:
+            if isinstance(e, (KeyboardInterrupt, SystemExit)):
+                raise
+            R.bad(f'minimize-raises-{type(e).__name__}-{which}',
+                  f'Circuit.minimize raised {type(e).__name__}: '
+                  f'{str(e)[:200]}', replay)
+            continue
+        ck.count(('minimize', tuple(radixes), tuple(ops), which, kind,
+                  tuple(np.round(x0, 9))))
+        ck.bump('minimize_runs', which)
+        fin = np.array(circuit.params, dtype=np.float64)
+        if ret is not None or sim.circ_text(circuit, True) != before:
+            R.bad('minimize-structure-changed',
+                  'Circuit.minimize changed the structure of the circuit or '
+                  'returned something', replay)
+        if len(fin) != nparams or not np.all(np.isfinite(fin)):
+            R.bad('minimize-nonfinite-params',
+                  'Circuit.minimize left non-finite parameters', replay)
+            continue
+        if not np.array_equal(fin, want):
+            R.bad('minimize-params-not-minimizer-result',
+                  'after Circuit.minimize(cost) the parameters are not what '
+                  'minimizer.minimize(cost, circuit.params) returns', replay)
+        c1 = ref_cost(circuit, tg, fin)
+        ck.bump('minimize_descended', str(bool(c1 <= c0 + 1e-9)))
 
 
 def section_qfactor_contract(R: Run):
@@ -1825,23 +1908,28 @@ def run(ck: Check):
     phases['translate+lean'] = round(time.time() - t0, 1)
     os.environ.setdefault('RUST_BACKTRACE', '0')
     R = Run(ck)
+    only_sig = None
     if ck.replay_path:
+        # a replay re-runs the recorded workload (same seed and tier: every
+        # case derives from the seed) and reports the recorded signature only
         import json
+        import random
         body = json.loads(open(ck.replay_path).read())
         rp = body.get('replay', body)
-        if rp.get('section') in ('cost', 'exact'):
-            ops = [(k, tuple(l)) for k, l in rp['ops']]
-            R.cost_case(rp['radixes'], ops, np.array(rp['params']),
-                        rp['target_kind'], rp.get('flavour', 'rand'),
-                        'replay', exact_pt=rp.get('section') == 'exact')
-            R.settle_lean()
-        else:
-            print('replay: re-running the section with the recorded seed')
-        return
+        only_sig = body.get('signature')
+        ck.seed = int(body.get('seed', ck.seed))
+        ck.tier = body.get('tier', ck.tier)
+        thorough = ck.tier == 'thorough'
+        ck.rng = random.Random(ck.seed * 1000003 + int(ck.pid[1:]))
+        R = Run(ck)
+        if rp.get('section') in ('cost', 'exact') and 'ops' in rp:
+            print(f'replay: {rp["section"]} case {rp["ops"]} params '
+                  f'{rp["params"]} target {rp["target_kind"]}')
     scale = 6 if thorough else 1
     for name, fn in [
             ('costs', lambda: section_costs(R, 150 * scale, 36 * scale)),
             ('instantiate', lambda: section_instantiate(R, 72 * scale)),
+            ('minimize', lambda: section_minimize(R, 24 * scale)),
             ('qfactor-contract', lambda: section_qfactor_contract(R)),
             ('select', lambda: section_select(R, 160 * scale)),
             ('set_params', lambda: section_setparams(R, 120 * scale)),
@@ -1850,15 +1938,28 @@ def run(ck: Check):
         fn()
         phases[name] = round(time.time() - t0, 1)
     ck.coverage['phases_s'] = phases
+    if only_sig is not None:
+        ck.violations = [v for v in ck.violations
+                         if v['signature'] == only_sig]
+        ck.known_hits = {k: v for k, v in ck.known_hits.items()
+                         if __import__('re').fullmatch(k, only_sig)}
+        print(f'replay of {only_sig}: '
+              + ('reproduced' if ck.violations or ck.known_hits
+                 else 'not reproduced'))
     ck.coverage['max_differences'] = {k: float(f'{v:.3g}')
                                       for k, v in sorted(R.maxdiff.items())}
     if not proved:
         # (B) obligation broke: look for an input on which the real selection
         # departs from the documented rule (section_select already did) and
         # report the obligation
+        log = ck.proof_failure or ''
+        errs = [l.strip() for l in log.splitlines()
+                if l.startswith('error:') and 'build failed' not in l
+                and 'Lean exited' not in l]
         ck.violation(
             'proof-obligation', 'Lean obligations of Props/C19 do not check: '
-            + (ck.proof_failure or '')[-600:],
+            + (' | '.join(errs)[:500] if errs else log[-500:])
+            + ' (regenerated table: ' + str(table)[:300] + ')',
             {'broken': 'BqVerif.Props.C19', 'log': ck.proof_failure,
              'instantiater_order': table},
             found_input=False)
